@@ -84,6 +84,13 @@ func (model Model) AddDef(sec string, key string, value string) bool {
 		for i := range ast.Tokens {
 			ast.Tokens[i] = key + "_" + strings.TrimSpace(ast.Tokens[i])
 		}
+		if sec == "p" {
+			// resolve every field index now (first occurrence wins, as in GetFieldIndex),
+			// so that later lookups never have to write to this map
+			for i := len(ast.Tokens) - 1; i >= 0; i-- {
+				ast.FieldIndexMap[strings.TrimPrefix(ast.Tokens[i], key+"_")] = i
+			}
+		}
 	} else if sec == "g" {
 		ast.ParamsTokens = getParamsToken(ast.Value)
 		ast.Tokens = strings.Split(ast.Value, ",")
